@@ -334,7 +334,7 @@ func c11run(c *c11case, x []byte) map[string]interface{} {
 			for i := 0; i < n && i < 2 && ok; i++ {
 				i := i
 				c11try(&posts, "ReferenceStats", func() { idx.ReferenceStats(i) })
-				for _, q := range c11queries {
+				for _, q := range c11queriesCsi {
 					q := q
 					ok = ok && c11try(&posts, fmt.Sprintf("Chunks(%d,%d)", q[0], q[1]), func() { idx.Chunks(i, q[0], q[1]) })
 				}
@@ -427,6 +427,10 @@ func c11run(c *c11case, x []byte) map[string]interface{} {
 
 // c11queries are the intervals every index is asked for: ordinary, empty, reversed, negative, beyond the geometry.
 var c11queries = [][2]int{{0, 1 << 20}, {100000, 100001}, {0, 0}, {5, 5}, {100, 50}, {-1, 10}, {-20000, 10}, {0, 1 << 40}, {1 << 35, 1 << 36}, {1<<29 - 1, 1 << 29}}
+
+// c11queriesCsi: a CSI geometry can be 2^41 positions deep, where an interval of 2^40 positions legitimately
+// lists 2^26 bins of the finest level; the far-away intervals are therefore short.
+var c11queriesCsi = [][2]int{{0, 1 << 20}, {100000, 100001}, {0, 0}, {5, 5}, {100, 50}, {-1, 10}, {-20000, 10}, {1 << 40, 1<<40 + 10}, {1<<62 - 5, 1 << 62}, {1<<29 - 1, 1 << 29}}
 
 func c11postCigar(posts *[]c11post, cg sam.Cigar, n int) {
 	c11try(posts, "Cigar.String", func() { _ = cg.String() })
